@@ -122,6 +122,9 @@ func (c *sctx) expr(e Expr) (Term, *SType) {
 	case *EIdent:
 		return c.ident(x)
 	case *EUnary:
+		if x.Op == "&" {
+			return c.addrOf(x)
+		}
 		t, ty := c.expr(x.X)
 		switch x.Op {
 		case "!":
@@ -396,6 +399,34 @@ func (c *sctx) derefPtr(p Term, elem types.Type) Term {
 	}
 	comp, cs := vc.boxComp(elem)
 	return app("select", vc.comp(c.cur, comp, cs), p)
+}
+
+// addrOf: &p.f for a field that lives at a derived reference (embedded struct, address-taken field).
+func (c *sctx) addrOf(x *EUnary) (Term, *SType) {
+	s, ok := x.X.(*ESel)
+	if !ok {
+		panic(specErr(x, "& needs a field selection"))
+	}
+	p, pt := c.expr(s.X)
+	ptr, ok := pt.Go.Underlying().(*types.Pointer)
+	if !ok {
+		panic(specErr(x, "&%s: not a pointer", s.Name))
+	}
+	st := ptr.Elem()
+	str, ok := st.Underlying().(*types.Struct)
+	if !ok {
+		panic(specErr(x, "&%s: not a struct", s.Name))
+	}
+	for i := 0; i < str.NumFields(); i++ {
+		f := str.Field(i)
+		if f.Name() == s.Name {
+			if inner, _ := c.vc.isInnerField(st, f); !inner {
+				panic(specErr(x, "&%s.%s: the address of this field is never taken in the code", typeKey(st), s.Name))
+			}
+			return c.vc.innerRef(st, f.Name(), p), goT(types.NewPointer(f.Type()))
+		}
+	}
+	panic(specErr(x, "no field %s", s.Name))
 }
 
 func (c *sctx) sel(x *ESel) (Term, *SType) {
@@ -703,6 +734,9 @@ func (c *sctx) call(x *ECall) (Term, *SType) {
 		}
 		_, v, _, vs := vc.mapComps(m)
 		return app("select", vc.comp(c.cur, v, vs), t), &SType{Kind: "map", Key: goT(m.Key()), Elem: goT(m.Elem())}
+	case "arrayOf":
+		t, _ := arg(0)
+		return app("ys.arr", t), goT(tInt)
 	case "fresh":
 		t, ty := arg(0)
 		r := t
